@@ -171,8 +171,13 @@ class BiasedYXErrorModel(SimpleErrorModel):
     def probability_distribution(self, probability):
         """See :meth:`qecsim.model.ErrorModel.probability_distribution`"""
         # rates
-        r_x = self._rate_x(self._bias, probability)
-        r_y = self._rate_y(self._bias, probability)
+        if self._bias > 1e150:
+            # bias**2 would overflow so use the X <-> Y symmetry of the model, i.e. rates of inverse bias swapped
+            r_x = self._rate_y(1 / self._bias, probability)
+            r_y = self._rate_x(1 / self._bias, probability)
+        else:
+            r_x = self._rate_x(self._bias, probability)
+            r_y = self._rate_y(self._bias, probability)
         # probabilities
         p_x = r_x * (1 - r_y)
         p_y = r_y * (1 - r_x)
